@@ -27,8 +27,8 @@ for f in metas:
     rows.append("| %s | %s | %s | %s |" % (sid, t[:230], how, last))
 head = """## 10. Seeded changes: which check catches which change
 
-%d changes in two rounds, each written by a fresh sub-agent that saw only one property's text (round 2 also one-line
-descriptions of that property's round-1 changes, to avoid repeats, and a request for changes that are hard to notice:
+%d changes in three rounds, each written by a fresh sub-agent that saw only one property's text (rounds 2 and 3 also one-line
+descriptions of that property's earlier changes, to avoid repeats, and a request for changes that are hard to notice:
 release-only, particular element classes, multi-step storage states, allocator refusal, panics at the k-th callback,
 boundary arguments, cooperating edits, rarely used APIs) and a scratch worktree. Each was confirmed (the crate's suite passes,
 the demonstration fails with / passes without the change), applied to `/repo`, checked, and undone. Where the first attempt
